@@ -89,6 +89,24 @@ Theorem C13_step_entries_numbered : forall ne nt st steps nt' st',
 Proof. exact good_steps_entries. Qed.
 Print Assumptions C13_step_entries_numbered.
 
+(* locals: update_locals is forwarded to every node except the subtree below callback_on_new_best (lists to every child,
+   EveryNTimesteps / EvalCallback.callback_after_eval to their child); a recorder that is delivered update_locals of env step s and then
+   the step event logs the locals stamp s *)
+Theorem C13_update_locals_forwarded : forall pb s d,
+  (forall b stop log, dispatchp pb (UL s d) (Rec b stop log) = (Rec (base_ul s d b) stop log, true)) /\
+  (forall b l, fst (dispatchp pb (UL s d) (CList b l)) = CList (base_ul s d b) (map (fun c => fst (dispatchp pb (UL s d) c)) l)) /\
+  (forall b n last fired ch, fst (dispatchp pb (UL s d) (EveryN b n last fired ch)) = EveryN (base_ul s d b) n last fired (fst (dispatchp pb (UL s d) ch))) /\
+  (forall b f best evals dn ob af,
+     fst (dispatchp pb (UL s d) (EvalC b f best evals dn ob af)) = EvalC (base_ul s d b) f best evals dn ob (fst (dispatchp pb (UL s d) af))).
+Proof. exact ul_forwarding. Qed.
+Print Assumptions C13_update_locals_forwarded.
+
+Theorem C13_step_after_update_locals_sees_that_step : forall pb s d nt b stop log,
+  let r := fst (dispatchp pb (Step nt) (fst (dispatchp pb (UL s d) (Rec b stop log)))) in
+  exists b', r = Rec b' stop (log ++ [mkE 2 (b_calls b + 1) nt s]).
+Proof. exact step_after_ul_sees_that_step. Qed.
+Print Assumptions C13_step_after_update_locals_sees_that_step.
+
 (* CheckpointCallback saves exactly at the on_step calls whose number is a multiple of save_freq,
    counted over the whole life of the callback (any number of learn() calls, any other events in between) *)
 Theorem C13_checkpoint_cadence : forall evs b f sv,
